@@ -283,16 +283,26 @@ static cbor_item_t* p_item(void) {
       cbor_decref(&x); cbor_decref(&y); return r;
     }
     case 'h': case 's': {
-      int raw = 0; if (*P == '!') { P++; raw = 1; }      /* 's!(bits)': cbor_new_float4 + cbor_set_float4 */
+      int raw = 0; if (*P == '!') { P++; raw = 1; if (*P == '!') { P++; raw = 2; } }      /* 's!(bits)': cbor_new_float4 + cbor_set_float4; 's!!(bits)': set to the value of opposite sign first, then to the value */
       p_eat('('); uint32_t b = (uint32_t)p_num(); p_eat(')');
       float f; memcpy(&f, &b, 4);
-      if (raw) { r = c == 'h' ? cbor_new_float2() : cbor_new_float4(); if (r) { if (c == 'h') cbor_set_float2(r, f); else cbor_set_float4(r, f); } return r; }
+      if (raw) {
+        r = c == 'h' ? cbor_new_float2() : cbor_new_float4();
+        if (r && raw == 2) { uint32_t nb = b ^ 0x80000000u; float g; memcpy(&g, &nb, 4); if (c == 'h') cbor_set_float2(r, g); else cbor_set_float4(r, g); }
+        if (r) { if (c == 'h') cbor_set_float2(r, f); else cbor_set_float4(r, f); }
+        return r;
+      }
       return c == 'h' ? cbor_build_float2(f) : cbor_build_float4(f);
     }
     case 'd': {
-      int raw = 0; if (*P == '!') { P++; raw = 1; }
+      int raw = 0; if (*P == '!') { P++; raw = 1; if (*P == '!') { P++; raw = 2; } }
       p_eat('('); uint64_t b = p_num(); p_eat(')'); double f; memcpy(&f, &b, 8);
-      if (raw) { r = cbor_new_float8(); if (r) cbor_set_float8(r, f); return r; }
+      if (raw) {
+        r = cbor_new_float8();
+        if (r && raw == 2) { uint64_t nb = b ^ 0x8000000000000000ULL; double g; memcpy(&g, &nb, 8); cbor_set_float8(r, g); }
+        if (r) cbor_set_float8(r, f);
+        return r;
+      }
       return cbor_build_float8(f);
     }
     case 'c': {
@@ -364,7 +374,11 @@ static void op_load(const char* hex, int mode, long k, size_t cap) {
     free(ob2);
   }
 #if CBOR_PRETTY_PRINTER
-  { FILE* dn = fopen("/dev/null", "w"); if (dn) { cbor_describe(item, dn); fclose(dn); } }
+  { /* cbor_describe into memory: the number of lines it prints is determined by the tree (one per item, one per definite string's data, one per map entry,
+       plus the line feeds inside text strings) */
+    char* dbuf = NULL; size_t dlen = 0; FILE* dn = open_memstream(&dbuf, &dlen);
+    if (dn) { cbor_describe(item, dn); fclose(dn); size_t nl = 0; for (size_t i = 0; i < dlen; i++) if (dbuf[i] == '\n') nl++; printf(" desc=%zu", nl); free(dbuf); }
+  }
 #endif
   cbor_item_t* cp = cbor_copy(item);
   if (!cp) printf(" copy=null");
@@ -659,18 +673,39 @@ static int op_growrun(const char* kind, unsigned long long n) {
 
 
 /* FLTGET <tree-leaf>: a float item (h(..) / s(..) / d(..), built through cbor_build_* or, with '!', cbor_new_* + cbor_set_*): the value read back through the
-   width-specific getter and through cbor_float_get_float, as bit patterns:  <width> <bits at its width> <bits of the double returned by cbor_float_get_float> */
+   width-specific getter and through cbor_float_get_float, as bit patterns:  <width> <bits at its width> <bits of the double returned by cbor_float_get_float> ser=<its serialization> */
 static int op_fltget(const char* tree) {
   cbor_item_t* it = parse_tree(tree);
   if (!it || !cbor_isa_float_ctrl(it) || !cbor_is_float(it)) { printf("bad-tree\n"); if (it) cbor_decref(&it); return 1; }
   double g = cbor_float_get_float(it); uint64_t gb; memcpy(&gb, &g, 8);
   switch (cbor_float_get_width(it)) {
-    case CBOR_FLOAT_16: { float f = cbor_float_get_float2(it); uint32_t b; memcpy(&b, &f, 4); printf("16 %u %" PRIu64 "\n", b, gb); break; }
-    case CBOR_FLOAT_32: { float f = cbor_float_get_float4(it); uint32_t b; memcpy(&b, &f, 4); printf("32 %u %" PRIu64 "\n", b, gb); break; }
-    case CBOR_FLOAT_64: { double f = cbor_float_get_float8(it); uint64_t b; memcpy(&b, &f, 8); printf("64 %" PRIu64 " %" PRIu64 "\n", b, gb); break; }
-    default: printf("0 0 %" PRIu64 "\n", gb);
+    case CBOR_FLOAT_16: { float f = cbor_float_get_float2(it); uint32_t b; memcpy(&b, &f, 4); printf("16 %u %" PRIu64, b, gb); break; }
+    case CBOR_FLOAT_32: { float f = cbor_float_get_float4(it); uint32_t b; memcpy(&b, &f, 4); printf("32 %u %" PRIu64, b, gb); break; }
+    case CBOR_FLOAT_64: { double f = cbor_float_get_float8(it); uint64_t b; memcpy(&b, &f, 8); printf("64 %" PRIu64 " %" PRIu64, b, gb); break; }
+    default: printf("0 0 %" PRIu64, gb);
   }
+  { unsigned char ob[16]; size_t w = cbor_serialize(it, ob, sizeof ob); printf(" ser="); print_hex(ob, w); printf("\n"); }
   cbor_decref(&it);
+  return 1;
+}
+
+/* MAPKV <definite 0|1> <pattern of k / v>: a map assembled with the two halves of cbor_map_add used separately (_cbor_map_add_key, _cbor_map_add_value; maps.h),
+   so that pairs anywhere in the map may have no value yet; keys are 1-byte integers, values 2-block text strings; the client releases its own references at once
+   and the map at the end.   ->  size=<pairs> novalue=<pairs without value> before=<live blocks> after=<live blocks once the map is released> */
+static int op_mapkv(int definite, const char* pat) {
+  long live0 = h_alloc_live();
+  size_t nk = 0; for (const char* q = pat; *q; q++) if (*q == 'k') nk++;
+  cbor_item_t* m = definite ? cbor_new_definite_map(nk) : cbor_new_indefinite_map();
+  if (!m) { printf("setup-failed\n"); return 1; }
+  unsigned i = 0;
+  for (const char* q = pat; *q; q++, i++) {
+    if (*q == 'k') { cbor_item_t* k = cbor_build_uint8((uint8_t)i); bool ok = _cbor_map_add_key(m, k); cbor_decref(&k); if (!ok) { printf("add-key-refused "); break; } }
+    else if (*q == 'v' && cbor_map_size(m) > 0) { char t[8]; snprintf(t, sizeof t, "v%u", i); cbor_item_t* v = cbor_build_string(t); (void)_cbor_map_add_value(m, v); cbor_decref(&v); }
+  }
+  size_t nov = 0; for (size_t j = 0; j < cbor_map_size(m); j++) if (cbor_map_handle(m)[j].value == NULL) nov++;
+  printf("size=%zu novalue=%zu before=%ld", cbor_map_size(m), nov, h_alloc_live() - live0);
+  cbor_decref(&m);
+  printf(" after=%ld\n", h_alloc_live() - live0);
   return 1;
 }
 
@@ -696,5 +731,6 @@ int tree_op(int argc, char** w) {
   if (argc == 2 && !strcmp(w[0], "LOADSEQ")) return op_loadseq(w[1]);
   if (argc == 3 && !strcmp(w[0], "GROWRUN")) return op_growrun(w[1], strtoull(w[2], 0, 10));
   if (argc == 2 && !strcmp(w[0], "FLTGET")) return op_fltget(w[1]);
+  if (argc == 3 && !strcmp(w[0], "MAPKV")) return op_mapkv(atoi(w[1]), w[2]);
   return hist_op(argc, w);
 }
